@@ -359,6 +359,60 @@ func init() {
 					}
 					c.Count("large_tree_names_rendered", len(files))
 				}})
+			// one valid tree whose argument lists span lines, written with LF, CRLF, CR-only and mixed line ends: every
+			// spelling loads, and every page renders what the LF spelling renders
+			eolTree := map[string]string{
+				"layouts/main.tw":    "<html>@reserve(\n\"title\"\n)|@reserve(\"body\")</html>",
+				"components/card.tw": "<card>{{ t }}{{ u }}@slot</card>",
+				"page.tw":            "@use(\n\"~main\"\n)@insert(\n\"title\",\n\"T\"\n)@insert(\"body\")@component(\"~card\",\n{\n t: 1,\n u: [2,\n 3]\n}\n)@slot x@end@end@end",
+				"plain.tw":           "{{\n 1 +\n 2\n}}@if(\n true\n)y@end@each(v in\n [1,\n 2]\n){{ v }}@end@for(k = 0;\n k < 2;\n k++){{ k }}@end{{ \"abc\".contains(\n\"b\"\n) }}",
+			}
+			eols := []string{"\r\n", "\r", "\n\r", "\r\r\n", " \r \n\t", "\r\t"}
+			secs = append(secs, core.Section{Name: "line-ends-inside-argument-lists", Exhaustive: true, N: len(eols),
+				Run: func(c *core.Ctx, i int) {
+					observeTree := func(eol string) (string, bool) {
+						files := map[string]string{}
+						for n, src := range eolTree {
+							files[n] = strings.ReplaceAll(src, "\n", eol)
+						}
+						os.RemoveAll("eol")
+						if err := writeFiles("eol", files); err != nil {
+							c.Inconclusive(err.Error())
+							return "", false
+						}
+						defer os.RemoveAll("eol")
+						tpl, err, panicked := newTemplate(c, "eol", ".tw")
+						if panicked {
+							return "", false
+						}
+						if err != nil || tpl == nil {
+							return fmt.Sprintf("load: %v", err), true
+						}
+						var obs []string
+						for _, n := range []string{"page", "plain"} {
+							o, _ := renderPage(c, tpl, n, nil)
+							if o.Panicked {
+								return "", false
+							}
+							obs = append(obs, n+" => "+o.Describe())
+						}
+						return strings.Join(obs, "; "), true
+					}
+					c.Input(map[string]any{"line_end": fmt.Sprintf("%q", eols[i]), "files": describeFiles(eolTree)})
+					c.Nontrivial("eol:" + eols[i])
+					lf, ok := observeTree("\n")
+					if !ok {
+						return
+					}
+					if want := "page => output \"<html>T|<card>12, 3 x</card></html>\"; plain => output \"3y12011\""; lf != want {
+						c.Violation("line-ends:lf", fmt.Sprintf("the tree written with LF gives %s, want %s", lf, want), nil)
+						return
+					}
+					got, ok := observeTree(eols[i])
+					if ok && got != lf {
+						c.Violation("line-ends", fmt.Sprintf("the tree written with line ends %q gives %s; with LF it gives %s", eols[i], clipS(got, 400), lf), nil)
+					}
+				}})
 			secs = append(secs, core.Section{Name: "faults", Exhaustive: true, N: len(fcases),
 				Run: func(c *core.Ctx, i int) {
 					fc := fcases[i]
